@@ -572,6 +572,7 @@ func (r *Runner) cmd(ctx context.Context, cm syntax.Command) {
 				break
 			}
 		}
+		r.loopDone()
 	case *syntax.ForClause:
 		switch y := cm.Loop.(type) {
 		case *syntax.WordIter:
@@ -624,6 +625,7 @@ func (r *Runner) cmd(ctx context.Context, cm syntax.Command) {
 				break
 			}
 
+			defer r.loopDone()
 			for _, field := range items {
 				r.setVarString(name, field)
 				trace.stringf("for %s in", y.Name.Value)
@@ -652,6 +654,7 @@ func (r *Runner) cmd(ctx context.Context, cm syntax.Command) {
 					r.arithm(y.Post)
 				}
 			}
+			r.loopDone()
 		}
 	case *syntax.FuncDecl:
 		if cm.Name == nil { // e.g. zsh's anonymous or multi-name functions
@@ -1137,6 +1140,14 @@ func (r *Runner) redir(ctx context.Context, rd *syntax.Redirect) (io.Closer, err
 		return nil, fmt.Errorf("unhandled redirect op: %v", rd.Op)
 	}
 	return f, nil
+}
+
+// loopDone is called when a loop ends. A count larger than the number of
+// enclosing loops, as in "break 5" inside two loops, ends with the outermost loop.
+func (r *Runner) loopDone() {
+	if !r.inLoop {
+		r.breakEnclosing, r.contnEnclosing = 0, 0
+	}
 }
 
 func (r *Runner) loopStmtsBroken(ctx context.Context, stmts []*syntax.Stmt) bool {
